@@ -48,7 +48,8 @@ pub fn run(out: &mut Out, seed: u64, tier: &str) {
         // forth across its bonding distance: the smallest move that changes what the connectivity must be
         let straddle = s >= 10 && s % 6 == 4 && m.n() >= 2;
         let (si, sj) = { let i = rng.below(m.n()); let mut j = rng.below(m.n()); if j == i { j = (i + 1) % m.n(); } (i, j) };
-        let sdelta = *rng.pick(&[4e-9, 2e-9, 9e-9, 1e-10, 3e-8]);
+        let sdelta = { let hm: Vec<f64> = hints().magnitudes().into_iter().filter(|m| *m < 0.05).collect();
+                       if !hm.is_empty() && s % 12 == 4 { hm[rng.below(hm.len())] * *rng.pick(&[0.4, 0.6, 2.0]) } else { *rng.pick(&[4e-9, 2e-9, 9e-9, 1e-10, 3e-8]) } };
         let len = if straddle { 6 } else { 2 + rng.below(if tier == "thorough" { 11 } else { 7 }) };
         for k in 0..len {
             let choice = if straddle { if k % 2 == 0 { 0 } else { 3 } } else if k == 0 { 0 } else { rng.below(10) };
